@@ -246,22 +246,11 @@ func methodType(t reflect.Type, name string) (reflect.Type, bool, bool) {
 		case reflect.Interface:
 			return interfaceType, false, true
 		case reflect.Struct:
-			// First, check all struct's fields.
-			for i := 0; i < d.NumField(); i++ {
-				f := d.Field(i)
-				if !f.Anonymous && f.Name == name {
-					return f.Type, false, true
-				}
-			}
-
-			// Second, check fields of embedded structs.
-			for i := 0; i < d.NumField(); i++ {
-				f := d.Field(i)
-				if f.Anonymous {
-					if t, method, ok := methodType(f.Type, name); ok {
-						return t, method, true
-					}
-				}
+			// A function-valued field is resolved like any other field and
+			// the way the VM does at run time (reflect's FieldByName):
+			// embedding depth decides, unexported fields are not accessible.
+			if f, ok := d.FieldByName(name); ok && f.PkgPath == "" {
+				return f.Type, false, true
 			}
 
 		case reflect.Map:
